@@ -224,6 +224,56 @@ def run(prog: Program, ctx: Ctx) -> None:  # noqa: PLR0912,PLR0915
         it.stubs.pop(f"{I}.Inspector.{q}", None)
     it.class_stubs.pop("_griffe.models.Class", None)
 
+    # ------------------------------------------------------------------ R11 one recorded parameter per runtime parameter, whatever the annotations say
+    ctx.rule("R11", "handle_function records exactly the parameters of the runtime signature (names, kinds, defaults), also when string annotations "
+                    "name things that do not exist at run time: annotations are read, never evaluated")
+    import inspect as _insp
+
+    def f_plain(a, /, b, *args, c=1, **kw):  # noqa: ANN001,ANN002,ANN003,ANN202
+        pass
+
+    def f_typed(x: int = 0) -> str:  # noqa: ARG001
+        return ""
+
+    # (this file postpones annotations: the ones below are the strings "Entry", "Missing", ... at run time, naming nothing that exists)
+    def f_strings(self, entry: Entry, *items: Missing, flag: bool = False, **kw: Nope) -> AlsoMissing:  # type: ignore[name-defined]  # noqa: ANN001,F821,ARG001
+        pass
+
+    def f_resolvable_string(x: int) -> str:  # noqa: ARG001
+        return ""
+
+    def sig_native(_i, obj, **kw):  # noqa: ANN001,ANN003,ANN202
+        try:
+            return _insp.signature(obj, **kw)
+        except Exception as ex:  # noqa: BLE001 - whatever CPython raises is what the analysed code has to handle
+            raise Raised(type(ex).__name__) from None
+
+    hf = prog.function(f"{I}.Inspector.handle_function")
+    made_f: list = []
+    it.ext_handlers["inspect.signature"] = sig_native
+    it.class_stubs["_griffe.models.Function"] = lambda _i, **k: (made_f.append(k), Obj(prog.cls("_griffe.models.Function"), {"parent": None, "labels": set(), "is_attribute": False, **k}))[1]
+    it.stubs[f"{I}.Inspector._get_linenos"] = lambda _i, *_a, **_k: (1, 2)
+    it.stubs[f"{I}.Inspector._get_docstring"] = lambda _i, *_a, **_k: None
+    it.stubs[f"{I}._convert_object_to_annotation"] = lambda _i, o_, **_k: o_ if isinstance(o_, str) else getattr(o_, "__name__", repr(o_))
+    for fobj in (f_plain, f_typed, f_strings, f_resolvable_string):
+        made_f.clear()
+        cur = Obj(None, {"parent": None, "path": "m"}, label="m")
+        cur.attrs["set_member"] = Native(lambda _n, v_, cur=cur: v_.attrs.__setitem__("parent", cur))
+        insp_o = Obj(prog.cls(f"{I}.Inspector"), {"extensions": Obj(None, {"call": Native(lambda *_a, **_k: None)}), "current": cur}, label="inspector")
+        want = [(p_.name, p_.kind.name.lower(), None if p_.default is _insp.Parameter.empty else repr(p_.default)) for p_ in _insp.signature(fobj).parameters.values()]
+        try:
+            it.steps = 0
+            it.call(hf, insp_o, Obj(None, {"obj": fobj, "name": fobj.__name__}))
+            ps = made_f[0]["parameters"] if made_f else "no function built"
+            got: object = ps if not isinstance(ps, Obj) else [(q.attrs["name"], q.attrs["kind"].name.split(".")[-1], q.attrs["default"]) for q in ps.attrs["_params"]]
+        except Raised as r:
+            got = f"raises {r.exc}"
+        ctx.ob("R11", f"parameters|{fobj.__name__}", got == want, f"def {fobj.__name__}{_insp.signature(fobj)}: the inspector records parameters {got}; the runtime signature has {want}", where(hf))
+    for q in ("Inspector._get_linenos", "Inspector._get_docstring", "_convert_object_to_annotation"):
+        it.stubs.pop(f"{I}.{q}", None)
+    it.class_stubs.pop("_griffe.models.Function", None)
+    it.ext_handlers.pop("inspect.signature", None)
+
     # ------------------------------------------------------------------ R8 static import aliases = what CPython binds (and the inspector sees)
     from sa.importrules import importfrom_table
 
